@@ -213,7 +213,8 @@ def hist_header_set(W, ops, prng):
             hs = getattr(r, prop)
             model = [] if not v else (["a", "B"] if v == "a, B" else [v] if isinstance(v, str) else list(v))
         elif op == "setitem":
-            if model and not mhas(x):
+            if model and (not mhas(x) or model[0].lower() == x.lower()):
+                # a new member, or a different spelling of the member being replaced (no duplicate can arise)
                 hs[0] = x
                 model[0] = x
         elif op == "delitem":
@@ -467,10 +468,13 @@ CR_OPS = ["set", "set_nolen", "set_units", "unset", "attr_len", "attr_start", "a
 def hist_mimetype_params(W, ops, prng):
     r = W["Response"](mimetype="text/html")
     mp = r.mimetype_params
-    m = {"charset": "utf-8"}
+    m = {"charset": "utf-8"}  # content of the held view
+    hdr = dict(m)  # parameters the header text carries
+    mt = "text/html"
     hist = []
     for op in ops:
         hist.append(op)
+        wrote = True
         if op == "set":
             mp["boundary"] = "x y"
             m["boundary"] = "x y"
@@ -478,37 +482,54 @@ def hist_mimetype_params(W, ops, prng):
             mp["q"] = 'a"b\\c'
             m["q"] = 'a"b\\c'
         elif op == "del":
-            if "charset" in mp:
+            wrote = "charset" in m
+            if wrote:
                 del mp["charset"]
                 m.pop("charset")
         elif op == "pop":
+            wrote = "boundary" in m
             mp.pop("boundary", None)
             m.pop("boundary", None)
         elif op == "update":
             mp.update(level="1")
             m["level"] = "1"
         elif op == "clear":
+            wrote = bool(m)
             mp.clear()
             m = {}
         elif op == "mimetype":
             r.mimetype = "application/json"
             mp = r.mimetype_params
-            m = {}
+            m, mt, wrote = {}, "application/json", False
+            hdr = {}
+        elif op == "mimetype_keep_view":
+            # the mimetype changes by another route while the old view is still held: later edits through the held
+            # view write its parameters, but must keep the *current* mimetype
+            r.mimetype = "application/octet-stream"
+            mt, wrote = "application/octet-stream", False
+            hdr = {}
+        elif op == "content_type_keep_view":
+            r.content_type = "image/png"
+            mt, wrote = "image/png", False
+            hdr = {}
         elif op == "direct":
             r.headers["Content-Type"] = "text/x; a=b"
             mp = r.mimetype_params
-            m = {"a": "b"}
+            m, mt, wrote = {"a": "b"}, "text/x", False
+            hdr = {"a": "b"}
+        if wrote:
+            hdr = dict(m)
         fresh = r.mimetype_params
         if dict(mp) != m:
             raise Drift("C16/mimetype_params:view-differs-from-shadow-model", f"{hist!r}: {dict(mp)!r} vs {m!r}")
-        if dict(fresh) != m:
-            raise Drift("C16/mimetype_params:fresh-view-differs", f"{hist!r}: fresh {dict(fresh)!r} model {m!r} header {r.headers.get('Content-Type')!r}")
-        if r.mimetype not in ("text/html", "application/json", "text/x"):
-            raise Drift("C16/mimetype_params:mimetype-lost", f"{hist!r}: {r.headers.get('Content-Type')!r}")
+        if dict(fresh) != hdr:
+            raise Drift("C16/mimetype_params:fresh-view-differs", f"{hist!r}: fresh {dict(fresh)!r} model {hdr!r} header {r.headers.get('Content-Type')!r}")
+        if r.mimetype != mt:
+            raise Drift("C16/mimetype_params:mimetype-changed-by-parameter-edit", f"{hist!r}: mimetype {r.mimetype!r}, expected {mt!r} (header {r.headers.get('Content-Type')!r})")
     return hist
 
 
-MP_OPS = ["set", "set_weird", "del", "pop", "update", "clear", "mimetype", "direct"]
+MP_OPS = ["set", "set_weird", "del", "pop", "update", "clear", "mimetype", "direct", "mimetype_keep_view", "content_type_keep_view"]
 
 VIEW_TABLE = {
     "cache_control": (hist_cache_control, CC_OPS),
